@@ -258,6 +258,7 @@ def observe(ctx, index, spec):
     mot = pt.elements[0]
     rec = {'rule': index, 'k': len(pt.time) - 1, 'epoch': ctx.epoch,
            't': si.obj_si(pt.time[-1]) if pt.time else None,
+           't_raw': [pt.time[-1].value, pt.time[-1].unit] if pt.time else None,
            'seq': ctx.next_seq()}
     if 'enc' in spec:
         rec['th'] = si.obj_si(ctx.objs[spec['enc']].angular_position)
